@@ -357,6 +357,7 @@ class Port(Base):
             self._ports_to_items([4, 5, 6, ..., 65535]) -> [4]
         """
         operator = self._operator
+        ports = sorted(ports)
         if operator == "eq":
             return ports
         if operator == "range":
@@ -367,9 +368,9 @@ class Port(Base):
                 items.remove(port)
             return items
         if operator == "gt":
-            return [ports[0] - 1]
+            return [ports[0] - 1] if ports else [65535]
         if operator == "lt":
-            return [ports[1] + 1]
+            return [ports[-1] + 1] if ports else [1]
         raise ValueError(f"invalid port {operator=}")
 
 
